@@ -114,7 +114,11 @@ class GenericAttribute(Attribute):
     def __eq__(self, other: object) -> bool:
         if not isinstance(other, GenericAttribute):
             return False
-        return self.ID == other.ID and self.FLAG == other.FLAG and self._packed == other._packed
+        # EXTENDED_LENGTH is how one occurrence is framed (the configuration may ask for it with
+        # `attribute [ 0x99 0x70 ... ]`, and it is then sent that way); it is not part of what
+        # the attribute is, and the decoder does not keep it
+        mask = Attribute.Flag.MASK_EXTENDED
+        return self.ID == other.ID and self.FLAG & mask == other.FLAG & mask and self._packed == other._packed
 
     def __ne__(self, other: object) -> bool:
         return not self.__eq__(other)
